@@ -6,7 +6,7 @@ import sys, os, subprocess, tempfile, shutil, re
 sys.path.insert(0, '/verif')
 import checks_table as c
 pid, m = sys.argv[1], sys.argv[2]
-wt = '/tmp/seed/%s' % pid
+wt = os.environ.get('WT', '/tmp/seed/%s' % pid)
 patch = sys.argv[3] if len(sys.argv) > 3 else '/tmp/seed/%s-out/%s/patch.diff' % (pid, m)
 env = dict(os.environ, GOFLAGS='-mod=mod', GOPROXY='off', GOSUMDB='off', GOTOOLCHAIN='local')
 def sh(cmd, **kw): return subprocess.run(cmd, shell=True, env=env, **kw)
